@@ -128,6 +128,8 @@ def _cat(n):
         (f"% free text {n}", None),
         (f'some {{text}} "with" marks, = {n} and an @ sign', None),
         (f"@a{n}{{x{n}, f = {{l1\nl2}}, g = v#\"w\",}}", ("entry", f"a{n}", f"x{n}", (("f", "{l1\nl2}"), ("g", 'v#"w"')))),
+        # the same field names as elsewhere in the document, spelled in another case; a value equal to another entry's
+        (f"@misc{{c{n}, Title = {{T{n}}}, YEAR = 19{n}0, NOTE = {{T{n}}}}}", ("entry", "misc", f"c{n}", (("Title", f"{{T{n}}}"), ("YEAR", f"19{n}0"), ("NOTE", f"{{T{n}}}")))),
     ]
 
 
@@ -163,6 +165,33 @@ def build_doc(block_ids, gaps):
     return "".join(pieces), expected
 
 
+def build_doc_at(block_ids, gaps, offset):
+    """Like build_doc, with position-unique key suffixes starting at `offset` (no key shared with another document)."""
+    text, exp = [], []
+    pending = []
+
+    def flush():
+        t = "".join(pending).strip()
+        if t:
+            exp.append(("implicit", t))
+        pending.clear()
+
+    for pos, bid in enumerate(block_ids):
+        text.append(gaps[pos])
+        pending.append(gaps[pos])
+        t, e = _cat(pos + offset)[bid]
+        text.append(t)
+        if e is None:
+            pending.append(t)
+        else:
+            flush()
+            exp.append(e)
+    text.append(gaps[len(block_ids)])
+    pending.append(gaps[len(block_ids)])
+    flush()
+    return "".join(text), exp
+
+
 def l3_cases(first, tier):
     maxb = 2 if tier == "quick" else 3
     for nb in range(1, maxb + 1):
@@ -192,6 +221,7 @@ def shards(tier):
     out += [("L1core", s) for s in seq_shards(SIGMA_VAL_CORE, 8 if tier == "quick" else 10, min_len=6 if tier == "quick" else 7, prefix_len=3)]
     out += [("L2", i) for i in range(len(HEADS))]
     out += [("L3", i) for i in range(NCAT)]
+    out += [("L3pair", i) for i in range(NCAT)]
     out += [("L4", s) for s in seq_shards(spaces.SIGMA_DOC, 5 if tier == "quick" else 6)]
     out += [("big", n, v) for n in (bigdocs.SIZES_QUICK if tier == "quick" else bigdocs.SIZES_THOROUGH) for v in (0, 1)]
     return out
@@ -292,6 +322,31 @@ def run_shard(shard, tier, acc):
         text, exp = bigdocs.document(shard[1], shard[2])
         acc.count("big_documents")
         check_doc(text, exp, acc, f"big:{shard[1]}")
+    elif kind == "L3pair":
+        # two documents parsed one after the other INTO THE SAME LIBRARY: the library holds the blocks of both
+        for b_id in range(NCAT):
+            for ga in GAPS:
+                for gb in GAPS:
+                    ta, ea = build_doc((shard[1],), (ga, "\n"))
+                    tb, eb = build_doc_at((b_id,), (gb, "\n"), 5)
+                    acc.count("L3_pairs")
+                    acc.trace(2)
+                    acc.case(nontrivial_key=("pair", shard[1], b_id, ga, gb))
+                    case = {"text": ta, "second_text": tb, "level": "L3pair"}
+                    try:
+                        lib = bibtexparser.parse_string(ta, parse_stack=[])
+                        lib = bibtexparser.parse_string(tb, parse_stack=[], library=lib)
+                    except Exception as e:
+                        acc.exception(e, case, "parse_string(library=...)")
+                        continue
+                    obs = dialect.observed(lib)
+                    if obs != ea + eb:
+                        i, what = _diff(ea + eb, obs)
+                        acc.violation(
+                            {"oracle": "blocks_as_written", "what": what, "level": "L3pair"},
+                            {"case": case, "observed": obs, "expected": ea + eb, "first_difference_at_block": i},
+                            size=len(ta) + len(tb),
+                        )
     elif kind == "L4":
         for toks in seq_iter(spaces.SIGMA_DOC, shard[1]):
             text = "".join(toks)
@@ -311,6 +366,13 @@ def finish(acc, tier):
 
 def replay(case, acc):
     text = case["text"]
+    if "second_text" in case:
+        lib = bibtexparser.parse_string(text, parse_stack=[])
+        lib = bibtexparser.parse_string(case["second_text"], parse_stack=[], library=lib)
+        exp = (dialect.recognise(text) or []) + (dialect.recognise(case["second_text"]) or [])
+        if dialect.observed(lib) != exp:
+            acc.violation({"oracle": "blocks_as_written", "what": "pair", "level": "L3pair"}, {"case": case, "observed": dialect.observed(lib), "expected": exp})
+        return
     rec = dialect.recognise(text)
     if rec is None:
         acc.count("replay_not_wellformed")
